@@ -348,7 +348,7 @@ template< typename T, typename F>
 template< typename T, typename F>
    FixedStringReverseIterator< T, F>& FixedStringReverseIterator< T, F>::operator ++()
 {
-   if (mpObject != nullptr)
+   if ((mpObject != nullptr) && (mIndex != EndValue))
    {
       if (mIndex > 0)
          --mIndex;
@@ -375,7 +375,12 @@ template< typename T, typename F>
 {
    if (mpObject != nullptr)
    {
-      if (mIndex < mpObject->length() - 1)
+      if (mIndex == EndValue)
+      {
+         // decrementing rend() gives the first character, like for std::string
+         if (!mpObject->empty())
+            mIndex = 0;
+      } else if (mIndex < mpObject->length() - 1)
          ++mIndex;
       else
          mIndex = EndValue;
@@ -414,9 +419,14 @@ template< typename T, typename F>
    FixedStringReverseIterator< T, F>&
       FixedStringReverseIterator< T, F>::operator -=( size_t value) noexcept
 {
-   if ((mpObject != nullptr) && (mIndex != EndValue))
+   if (mpObject != nullptr)
    {
-      if (mIndex + value < mpObject->length())
+      if (mIndex == EndValue)
+      {
+         // stepping back from rend(), like for std::string
+         if ((value > 0) && (value <= mpObject->length()))
+            mIndex = value - 1;
+      } else if (mIndex + value < mpObject->length())
          mIndex += value;
       else
          mIndex = EndValue;
